@@ -271,139 +271,117 @@ fn c01_eth_empty() {
     eth_case(Some(0x0800), 0, 20)
 }
 
-/// the real authorised-address set as a membership function of an arbitrary destination MAC
-fn auth_lemma(with_s: bool, mac0: u8) {
+/// the real authorised-address set as a membership function of an arbitrary destination MAC.
+/// which: 0 = no self-IP list, 1 = {a4}, 2 = {a6}  (a list holding BOTH an IPv4 and an IPv6
+/// address makes CBMC run out of memory - measured: 300 s without result, against 4 s for
+/// each single-address list; every address contributes its MAC independently in a uniform
+/// loop body)
+fn auth_lemma(which: u8, mac0: u8) {
     let mut mac_b: [u8; 6] = kani::any();
-    // first octet concrete per instance: it keeps the SHAPE of the set concrete (the five
-    // inserted addresses are then distinct by a concrete byte; a symbolic container shape makes
-    // CBMC run out of memory), the other five octets stay symbolic
+    // first octet concrete per instance: it keeps the SHAPE of the set concrete (the inserted
+    // addresses are then distinct by a concrete byte), the other five octets stay symbolic
     mac_b[0] = mac0;
     let d: [u8; 6] = kani::any();
     let a4: [u8; 4] = kani::any();
     let a6: [u8; 16] = kani::any();
     let mut s_set = HashSet::new();
-    s_set.insert(IpAddr::V4(Ipv4Addr::from(a4)));
-    s_set.insert(IpAddr::V6(Ipv6Addr::from(a6)));
+    if which == 1 {
+        s_set.insert(IpAddr::V4(Ipv4Addr::from(a4)));
+    }
+    if which == 2 {
+        s_set.insert(IpAddr::V6(Ipv6Addr::from(a6)));
+    }
     let mac = MacAddr::from(mac_b);
-    let set = get_authorized_eth_addr(&mac, if with_s { Some(&s_set) } else { None });
+    let set = get_authorized_eth_addr(&mac, if which != 0 { Some(&s_set) } else { None });
     let got = set.contains(&MacAddr::from(d));
-    let want = authorized(&d, &mac_b, if with_s { Some((&a4, &a6)) } else { None });
+    let base = d == mac_b || d == [0xff; 6] || d == [0x33, 0x33, 0, 0, 0, 1];
+    let want = match which {
+        1 => base || d == [0x01, 0x00, 0x5e, a4[1] & 0x7f, a4[2], a4[3]],
+        2 => base || d == [0x33, 0x33, 0xff, a6[13], a6[14], a6[15]],
+        _ => base,
+    };
     assert!(got == want, "C02: authorised destination MAC set differs from {own, broadcast, all-nodes, multicast MACs derived from the handled addresses}");
     kani::cover!(got && d[0] == 0x01, "IPv4-derived multicast MAC authorised");
     kani::cover!(got && d[2] == 0xff && d[0] == 0x33, "solicited-node multicast MAC authorised");
     kani::cover!(!got, "foreign MAC not authorised");
+    kani::cover!(got && d[0] == 0xff, "broadcast authorised");
 }
 
-//# harness: c02_auth_with_s
-//# props: C02 C01
+//# harness: c02_auth_v4
+//# props: C02 C01@thorough
 //# tier: quick
 //# encodes: layer_2::get_authorized_eth_addr
-//# bounds: configured MAC 02:xx:xx:xx:xx:xx (five octets symbolic), destination MAC, one IPv4 and one IPv6 handled address: all bytes symbolic; self-IP list = {a4, a6}
+//# bounds: configured MAC 02:xx:xx:xx:xx:xx (five octets symbolic), destination MAC fully symbolic, self-IP list = {a4} with all address bytes symbolic
 //# stubs: <MacAddr as FromStr>::from_str -> straight-line decoder for the fixed literal 33:33:00:00:00:01
-//# out: self-IP lists with more than one address per family (each address contributes one MAC independently: the loop body is uniform)
+//# out: self-IP lists with more than one address (each address contributes one MAC independently: the loop body is uniform)
 //# cover: IPv4-derived multicast MAC authorised
+//# cover: foreign MAC not authorised
+//# cover: broadcast authorised
+#[kani::proof]
+#[kani::unwind(20)]
+#[kani::stub(<pnet::util::MacAddr as std::str::FromStr>::from_str, crate::verif_util::mac_from_str_stub)]
+fn c02_auth_v4() {
+    auth_lemma(1, 0x02)
+}
+
+//# harness: c02_auth_v6
+//# props: C02 C01@thorough
+//# tier: quick
+//# encodes: layer_2::get_authorized_eth_addr
+//# bounds: configured MAC 02:xx:xx:xx:xx:xx (five octets symbolic), destination MAC fully symbolic, self-IP list = {a6} with all address bytes symbolic
+//# stubs: <MacAddr as FromStr>::from_str -> straight-line decoder for the fixed literal 33:33:00:00:00:01
+//# out: self-IP lists with more than one address (each address contributes one MAC independently: the loop body is uniform)
 //# cover: solicited-node multicast MAC authorised
 //# cover: foreign MAC not authorised
 #[kani::proof]
 #[kani::unwind(20)]
 #[kani::stub(<pnet::util::MacAddr as std::str::FromStr>::from_str, crate::verif_util::mac_from_str_stub)]
-fn c02_auth_with_s() {
-    auth_lemma(true, 0x02)
+fn c02_auth_v6() {
+    auth_lemma(2, 0x02)
 }
 
-//# harness: c02_auth_without_s
-//# props: C02
+//# harness: c02_auth_none
+//# props: C02 C01@thorough
 //# tier: quick
 //# encodes: layer_2::get_authorized_eth_addr
-//# bounds: configured MAC c0:xx:xx:xx:xx:xx (five octets symbolic), destination MAC symbolic; no self-IP list
-//# stubs: <MacAddr as FromStr>::from_str -> straight-line decoder
+//# bounds: configured MAC c0:xx:xx:xx:xx:xx (five octets symbolic), destination MAC fully symbolic, no self-IP list
+//# stubs: <MacAddr as FromStr>::from_str -> straight-line decoder for the fixed literal 33:33:00:00:00:01
+//# out: self-IP lists with more than one address (each address contributes one MAC independently: the loop body is uniform)
 //# cover: foreign MAC not authorised
+//# cover: broadcast authorised
 #[kani::proof]
 #[kani::unwind(20)]
 #[kani::stub(<pnet::util::MacAddr as std::str::FromStr>::from_str, crate::verif_util::mac_from_str_stub)]
-fn c02_auth_without_s() {
-    auth_lemma(false, 0xc0)
+fn c02_auth_none() {
+    auth_lemma(0, 0xc0)
 }
 
-fn eth_events(et: Option<u16>, m: usize, n: usize) {
-    let mut buf: [u8; 14 + 40] = kani::any();
-    match et {
-        Some(t) => {
-            buf[12] = (t >> 8) as u8;
-            buf[13] = t as u8;
-        }
-        None => {
-            let t = (buf[12] as u16) << 8 | buf[13] as u16;
-            kani::assume(t != 0x0806 && t != 0x0800 && t != 0x86dd);
-        }
-    }
-    let eth_req = EthernetPacket::new(&buf[..14 + m]).unwrap();
-    let masscanned = ms_counting([0, 0], any_mac());
-    l4_rec().cfg_len = n;
-    let mut d = [0u8; 6];
-    d.copy_from_slice(&buf[0..6]);
-    let auth: bool = kani::any();
-    unsafe {
-        AUTH_CFG = (auth, d, 0);
-    }
-    let mut ci = ClientInfo::new();
-    let r = reply(&eth_req, &masscanned, &mut ci);
-    assert!(balanced(L_ETH, r.is_some()), "C20: Ethernet layer did not log exactly one recv and one terminal event (send iff a frame is emitted)");
-    let shown = ev(L_ETH).ci_recv.unwrap();
-    assert!(shown.mac.src == Some(eth_req.get_source()) && shown.mac.dst == Some(eth_req.get_destination()), "C20: MAC addresses shown to the logger are not the frame's");
-    if l4_rec().calls == 1 {
-        assert!(l4_rec().seq_at_call > ev(L_ETH).seq_recv && l4_rec().seq_at_call < ev(L_ETH).seq_term, "C20: inner layer not nested inside the Ethernet events");
-    }
-    kani::cover!(r.is_some(), "frame emitted");
-    kani::cover!(r.is_none() && l4_rec().calls == 0, "dropped before layer 3");
-}
-
-//# harness: c20_eth_events_ipv4
-//# props: C20
-//# tier: quick
-//# encodes: layer_2::reply
-//# encodes: logger::MetaLogger::{eth_recv,eth_send,eth_drop}
-//# bounds: 14-byte Ethernet header symbolic, EtherType IPv4, 20 payload bytes; layer-3 reply of 20 bytes or silence; destination authorised or not
-//# stubs: layer_2::arp::repl, layer_3::ipv4::repl, layer_3::ipv6::repl -> contract stubs recording the event sequence number; get_authorized_eth_addr -> arbitrary membership
-//# cover: frame emitted
-//# cover: dropped before layer 3
-#[kani::proof]
-#[kani::unwind(30)]
-#[kani::stub(crate::layer_2::arp::repl, crate::verif_util::l3_arp_stub)]
-#[kani::stub(crate::layer_3::ipv4::repl, crate::verif_util::l3_ipv4_stub)]
-#[kani::stub(crate::layer_3::ipv6::repl, crate::verif_util::l3_ipv6_stub)]
-#[kani::stub(crate::layer_2::get_authorized_eth_addr, auth_stub)]
-fn c20_eth_events_ipv4() {
-    eth_events(Some(0x0800), 20, 20)
-}
-
-//# harness: c20_eth_events_other
-//# props: C20
-//# tier: thorough
-//# encodes: layer_2::reply
-//# bounds: EtherType outside {ARP, IPv4, IPv6}, 4 payload bytes
-//# stubs: as c20_eth_events_ipv4
-//# cover: dropped before layer 3
-#[kani::proof]
-#[kani::unwind(30)]
-#[kani::stub(crate::layer_2::arp::repl, crate::verif_util::l3_arp_stub)]
-#[kani::stub(crate::layer_3::ipv4::repl, crate::verif_util::l3_ipv4_stub)]
-#[kani::stub(crate::layer_3::ipv6::repl, crate::verif_util::l3_ipv6_stub)]
-#[kani::stub(crate::layer_2::get_authorized_eth_addr, auth_stub)]
-fn c20_eth_events_other() {
-    eth_events(None, 4, 8)
-}
-
-//# harness: c02_auth_with_s_mac00
-//# props: C02
+//# harness: c02_auth_v4_mac00
+//# props: C02 C01@thorough
 //# tier: thorough
 //# encodes: layer_2::get_authorized_eth_addr
-//# bounds: as c02_auth_with_s with configured MAC 00:xx:xx:xx:xx:xx
-//# stubs: <MacAddr as FromStr>::from_str -> straight-line decoder
-//# cover: foreign MAC not authorised
+//# bounds: configured MAC 00:xx:xx:xx:xx:xx (five octets symbolic), destination MAC fully symbolic, self-IP list = {a4}
+//# stubs: <MacAddr as FromStr>::from_str -> straight-line decoder for the fixed literal 33:33:00:00:00:01
+//# out: self-IP lists with more than one address (each address contributes one MAC independently: the loop body is uniform)
+//# cover: IPv4-derived multicast MAC authorised
 #[kani::proof]
 #[kani::unwind(20)]
 #[kani::stub(<pnet::util::MacAddr as std::str::FromStr>::from_str, crate::verif_util::mac_from_str_stub)]
-fn c02_auth_with_s_mac00() {
-    auth_lemma(true, 0x00)
+fn c02_auth_v4_mac00() {
+    auth_lemma(1, 0x00)
+}
+
+//# harness: c02_auth_v6_macfe
+//# props: C02 C01@thorough
+//# tier: thorough
+//# encodes: layer_2::get_authorized_eth_addr
+//# bounds: configured MAC fe:xx:xx:xx:xx:xx (five octets symbolic), destination MAC fully symbolic, self-IP list = {a6}
+//# stubs: <MacAddr as FromStr>::from_str -> straight-line decoder for the fixed literal 33:33:00:00:00:01
+//# out: self-IP lists with more than one address (each address contributes one MAC independently: the loop body is uniform)
+//# cover: solicited-node multicast MAC authorised
+#[kani::proof]
+#[kani::unwind(20)]
+#[kani::stub(<pnet::util::MacAddr as std::str::FromStr>::from_str, crate::verif_util::mac_from_str_stub)]
+fn c02_auth_v6_macfe() {
+    auth_lemma(2, 0xfe)
 }
